@@ -15,12 +15,7 @@ COMMON_ASSUMPTIONS = [
     "dev profile semantics (overflow checks on) as modelled by Kani; counterexamples are replayed in dev and release",
 ]
 
-HOOK_COMMITS = []
-
-_TODO = "check not built yet (work in progress; see DESIGN.md section 3)"
-NOT_APPLICABLE = [
-    {"property_id": "C19", "reason": "Display for Tokenizer funnels every token through core::fmt (dyn Write, rt::Argument fn pointers, integer/flt2dec formatting): not encodable within reach of CBMC (14 GB without finishing symex on 2-byte inputs); stubbing fmt would remove the subject. See DESIGN.md section 6."},
-] + [{"property_id": "C%02d" % i, "reason": _TODO} for i in range(1, 21) if i not in (5, 19)]
+HOOK_COMMITS = ["f61912e"]
 
 CORE_HALF = {"crate": "core", "features": ["half"]}
 
@@ -29,9 +24,84 @@ def core(filters, features=("half",), **kw):
     g.update(kw)
     return g
 
+def derive(filters, features=(), **kw):
+    g = {"crate": "derive", "features": list(features), "filters": filters, "zflags": ["stubbing"]}
+    g.update(kw)
+    return g
+
 PROPS = {
-    "ZZ": {"title": "driver self-test (must report a VIOLATION)", "groups": [core(["zz_fail_probe"])]},
-    "TY": {"title": "scratch: codec table", "groups": [core(["types::"])]},
+    "C01": {
+        "title": "value round-trip of the built-in codecs",
+        "bounds": "per concrete instantiation (one harness each, listed in the evidence): ALL values of the type symbolic (every width boundary inside the query); "
+                  "encode into a 32-byte cursor, decode from a fresh array of the type's maximal encoded length; compound types over scalar fields; "
+                  "Option/Bound rows use the R3 model of Decoder::skip (C06 proves skip == R3)",
+        "outside": "HashMap/HashSet (SipHash/RandomState not encodable), heap collections (alloc rows are thorough-tier), strings > 4 bytes, tuples > 4",
+        "assumptions": ["Decoder::skip replaced by the R3 model in rows whose decoder skips a null/unit placeholder"],
+        "groups": [core({"quick": ["::q::c01"], "thorough": ["::c01"]})],
+    },
+    "C02": {
+        "title": "decoding untrusted bytes is total",
+        "bounds": "every typed accessor from an arbitrary start position (any usize) on <= 4 symbolic bytes; probe; Size::head/tail on 9 bytes; "
+                  "bytes/str/array/map iterators drained on all inputs <= 4 (3) bytes with the unwinding assertion as the work bound; drop-exactly-once "
+                  "for [D;3] / (D,D) on all 5-/4-byte inputs; Duration type-directed (all 2^96 payloads); plus Kani's panic/overflow/pointer checks in every "
+                  "C04/C05/C11 harness (those run the accessors on all 9-byte heads from position 0)",
+        "outside": "inputs longer than the stated lengths; wall-clock time (iteration counts are bounded instead); the global allocator",
+        "assumptions": ["core::str::from_utf8 over-approximated in the iterator harnesses (validated unstubbed in C04)"],
+        "groups": [core(["c02::c02_"])],
+    },
+    "C03": {
+        "title": "encoder output is well-formed, deterministic, shortest form",
+        "bounds": "every Encoder method over its FULL argument domain (u8..u64, i8..i64, Int, char, tag/array/map lengths: all 2^64; f32/f64 all patterns; simple: all 256 "
+                  "minus the known finding 20..=31); bytes/str payload <= 4 bytes and lengths up to 65537 through a counting sink; all sequences of 3 calls over 8 call kinds; "
+                  "every built-in Encode impl of the C01 rows vs an independent reference encoding",
+        "outside": "payloads > 4 bytes (only their heads, up to 65537), call sequences > 3, ArrayIter/MapIter adaptors",
+        "assumptions": [],
+        "groups": [core({"quick": ["c03::c03_", "::q::c03"], "thorough": ["c03::c03_", "::c03"]})],
+    },
+    "C04": {
+        "title": "typed decoding agrees with the RFC 8949 data model",
+        "bounds": "single items: 9 symbolic head bytes (+ <= 4 payload) with symbolic length for array/map/tag/simple/bool/null/undefined/datatype/bytes/str "
+                  "(UTF-8 validated unstubbed against RFC 3629 for all payloads <= 4 bytes); prefix clause: for each C01 row, each listed concrete cut point k, all values symbolic",
+        "outside": "indefinite-length string iterators (C02 covers their totality), nested typed containers deeper than the C01 rows, cut points not listed",
+        "assumptions": ["on a complete item read through a NON-matching accessor only is_err() is required (minicbor may answer end-of-input there)"],
+        "groups": [core({"quick": ["c04::c04_", "::q::c04::"], "thorough": ["c04::c04_", "::c04::"]})],
+    },
+    "C06": {
+        "title": "skip() consumes exactly one item",
+        "bounds": "structure: ALL byte strings of length N over the 13-letter alphabet of one-byte items (00 20 80 81 82 83 9f a0 a1 bf c1 f6 ff), N = 1..5 (quick) / ..7 (thorough) "
+                  "in the no-alloc build, N = 1..3 (quick) / 4 (thorough) in the alloc build, vs the independent item-boundary parser R3, incl. every strict prefix and arbitrary suffix; "
+                  "leaf accessors replaced by one-byte models proven equivalent on that domain (c06_lm_*); heads and strings: one item per concrete initial byte with the real accessors",
+        "outside": "more than N one-byte items; multi-byte heads inside nested containers (compositional: lm_equiv + heads group); depth-10^4 chains; alloc-build stack logic beyond N",
+        "assumptions": ["leaf models (each proven equivalent to the real accessor on the asserted domain)", "from_utf8 modelled as always-valid in the text-head harnesses (boundaries, not validation)"],
+        "groups": [core({"quick": ["c06::c06_lm", "c06::c06_a1", "c06_gen::q::"], "thorough": ["c06::c06_", "c06_gen::"]}),
+                   core({"quick": ["c06::c06_a1_n1", "c06::c06_a1_n2", "c06::c06_a1_n3", "c06_gen::q::"], "thorough": ["c06::c06_a1_n", "c06_gen::"]}, features=("half", "alloc"),
+                        timeout={"quick": 1500, "thorough": 5400})],
+    },
+    "C11": {
+        "title": "token streams are faithful",
+        "bounds": "one tokenizer step for each initial byte (quick: the 64 structurally distinct ones, thorough: all 256) with 8 symbolic argument bytes + <= 4 payload bytes: "
+                  "token value == head's data-model value, bytes consumed == item length, Token::encode == preferred serialisation of the consumed item; errors drain; "
+                  "None at/beyond the end; sequences of any length follow by induction over steps (argument, not query)",
+        "outside": "string payloads > 4 bytes; the induction over token sequences is an argument; signalling half NaNs (excluded by the statement)",
+        "assumptions": ["core::str::from_utf8 over-approximated (validated unstubbed in C04)"],
+        "groups": [core({"quick": ["c11_gen::q::", "c11::c11_q_"], "thorough": ["c11_gen::", "c11::c11_"]})],
+    },
+    "C12": {
+        "title": "floats survive bit-exactly; half precision per IEEE 754",
+        "bounds": "all 2^32 f32 and 2^64 f64 bit patterns (encode, decode, widening), all 65536 half patterns (decode through f16/f32/f64), "
+                  "all 2^32 f32 patterns through Encoder::f16 vs. the IEEE round-to-nearest-even reference; loop-free, no unwind bound",
+        "outside": "NaN payload propagation (not in the statement); F16C hardware paths of the half crate (software path is what Kani compiles)",
+        "assumptions": ["the half crate's software conversion path is the one compiled (no std feature detection in no_std builds)"],
+        "groups": [core(["c12::c12_"])],
+    },
+    "C13": {
+        "title": "bounded sinks",
+        "bounds": "for each C01 row: all values x symbolic capacity 0..=len+1 into a &mut [u8] sub-slice with canaries; Ok iff it fits, write error otherwise, prefix left; "
+                  "raw write_all sequences (3 calls, symbolic lengths) on each cursor kind; identical bytes in slice / array cursor sinks",
+        "outside": "Vec<u8> and std::io sinks in the quick tier (alloc/std groups are thorough-tier), sequences > 3 calls",
+        "assumptions": [],
+        "groups": [core({"quick": ["::q::c13", "c13::c13_"], "thorough": ["::c13", "c13::c13_"]})],
+    },
     "C05": {
         "title": "integer decoding never wraps or truncates",
         "bounds": "input = one CBOR head of 9 fully symbolic bytes with symbolic length 0..=9 (every sign x width x argument, "
@@ -41,3 +111,20 @@ PROPS = {
         "groups": [core(["c05_"])],
     },
 }
+
+# scratch / self-test entries (not in MANIFEST): run with --only <filter>
+PROPS["ZZ"] = {"title": "driver self-test (must report a VIOLATION)", "groups": [core(["zz_fail_probe"])]}
+PROPS["S-core"] = {"title": "scratch: core[half]", "groups": [core(["zz_"])]}
+PROPS["S-core-alloc"] = {"title": "scratch: core[half,alloc]", "groups": [core(["zz_"], features=("half", "alloc"))]}
+PROPS["S-core-std"] = {"title": "scratch: core[half,std]", "groups": [core(["zz_"], features=("half", "std"))]}
+PROPS["S-core-none"] = {"title": "scratch: core[]", "groups": [core(["zz_"], features=())]}
+PROPS["S-derive"] = {"title": "scratch: derive", "groups": [derive(["zz_"])]}
+
+_NA = {
+    "C19": "Display for Tokenizer funnels every token through core::fmt (dyn Write, rt::Argument fn pointers, integer/flt2dec formatting): not encodable within reach of CBMC (14 GB without finishing symex on 2-byte inputs); stubbing fmt would remove the subject. See DESIGN.md section 6.",
+}
+NOT_APPLICABLE = []
+for _i in range(1, 21):
+    _id = "C%02d" % _i
+    if _id not in PROPS:
+        NOT_APPLICABLE.append({"property_id": _id, "reason": _NA.get(_id, "check not registered yet (work in progress; see DESIGN.md section 3)")})
